@@ -24,6 +24,7 @@
 //  Includes
 // ---------------------------------------------------------------------------
 #include <xercesc/util/SynchronizedStringPool.hpp>
+#include <xercesc/util/XercesVerif.hpp>
 
 
 namespace XERCES_CPP_NAMESPACE {
@@ -58,6 +59,7 @@ unsigned int XMLSynchronizedStringPool::addOrFind(const XMLCh* const newString)
     // synchronize this bit
     unsigned int constCount = fConstPool->getStringCount();
     XMLMutexLock lockInit(&fMutex);
+    XERCES_VERIF_ACCESS("SynchronizedStringPool.overflow", this, &fMutex, 1);
     id = XMLStringPool::addOrFind(newString);
     return id+constCount;
 }
@@ -68,6 +70,7 @@ bool XMLSynchronizedStringPool::exists(const XMLCh* const newString) const
         return true;
 
     XMLMutexLock lockInit(&const_cast<XMLSynchronizedStringPool*>(this)->fMutex);
+    XERCES_VERIF_ACCESS("SynchronizedStringPool.overflow", this, &const_cast<XMLSynchronizedStringPool*>(this)->fMutex, 0);
     return XMLStringPool::exists(newString);
 }
 
@@ -86,6 +89,7 @@ bool XMLSynchronizedStringPool::exists(const unsigned int id) const
     // The rest needs to be synchronized.
     //
     XMLMutexLock lockInit(&const_cast<XMLSynchronizedStringPool*>(this)->fMutex);
+    XERCES_VERIF_ACCESS("SynchronizedStringPool.overflow", this, &const_cast<XMLSynchronizedStringPool*>(this)->fMutex, 0);
     return id < fCurId + constCount;
 }
 
@@ -105,6 +109,7 @@ unsigned int XMLSynchronizedStringPool::getId(const XMLCh* const toFind) const
     // make sure we return a truly unique id
     unsigned int constCount = fConstPool->getStringCount();
     XMLMutexLock lockInit(&const_cast<XMLSynchronizedStringPool*>(this)->fMutex);
+    XERCES_VERIF_ACCESS("SynchronizedStringPool.overflow", this, &const_cast<XMLSynchronizedStringPool*>(this)->fMutex, 0);
     return XMLStringPool::getId(toFind)+constCount;
 }
 
@@ -116,6 +121,7 @@ const XMLCh* XMLSynchronizedStringPool::getValueForId(const unsigned int id) con
 
     unsigned int constCount = fConstPool->getStringCount();
     XMLMutexLock lockInit(&const_cast<XMLSynchronizedStringPool*>(this)->fMutex);
+    XERCES_VERIF_ACCESS("SynchronizedStringPool.overflow", this, &const_cast<XMLSynchronizedStringPool*>(this)->fMutex, 0);
     return XMLStringPool::getValueForId(id-constCount);
 }
 
@@ -123,6 +129,7 @@ unsigned int XMLSynchronizedStringPool::getStringCount() const
 {
     unsigned int constCount = fConstPool->getStringCount();
     XMLMutexLock lockInit(&const_cast<XMLSynchronizedStringPool*>(this)->fMutex);
+    XERCES_VERIF_ACCESS("SynchronizedStringPool.overflow", this, &const_cast<XMLSynchronizedStringPool*>(this)->fMutex, 0);
     return fCurId+constCount-1;
 }
 
